@@ -216,6 +216,63 @@ Theorem C09_b64_decoded_bytes_are_bytes :
 Proof. exact b64_decode_wf. Qed.
 Print Assumptions C09_b64_decoded_bytes_are_bytes.
 
+(* an accepted string re-encodes to itself iff its unused trailing bits are
+   zero (b64_canonical): the malleable strings are exactly the non-canonical ones *)
+Theorem C09_b64_reencode_iff_canonical :
+  forall s x, b64_decode s = Some x -> (b64_encode x = s <-> b64_canonical s = true).
+Proof. exact b64_reencode. Qed.
+Print Assumptions C09_b64_reencode_iff_canonical.
+
+(* ---- consequences for the classic attacks ---- *)
+
+(* a header naming an algorithm no enabled key has ("none", HS256 against an
+   RSA/ECDSA keyset, ...) is never accepted, whatever the signature oracle says *)
+Theorem C09_foreign_algorithm_never_accepted :
+  forall sig_valid json_parse keys o tok r h p s hb hdr a,
+    tok = h ++ dot :: p ++ dot :: s -> nodot h -> nodot p -> nodot s ->
+    b64_decode h = Some hb -> json_parse hb = Some hdr ->
+    lookup s_alg hdr = Some (JStr a) ->
+    (forall k, In k keys -> kenabled k = true -> kalg k <> a) ->
+    verify sig_valid json_parse keys o tok <> Some (VOk r).
+Proof. exact foreign_alg_rejected. Qed.
+Print Assumptions C09_foreign_algorithm_never_accepted.
+
+Theorem C09_crit_header_never_accepted :
+  forall sig_valid json_parse keys o tok r h p s hb hdr c,
+    tok = h ++ dot :: p ++ dot :: s -> nodot h -> nodot p -> nodot s ->
+    b64_decode h = Some hb -> json_parse hb = Some hdr ->
+    lookup s_crit hdr = Some c ->
+    verify sig_valid json_parse keys o tok <> Some (VOk r).
+Proof. exact crit_rejected. Qed.
+Print Assumptions C09_crit_header_never_accepted.
+
+Theorem C09_empty_signature_never_accepted :
+  forall sig_valid json_parse keys o u r,
+    verify sig_valid json_parse keys o (u ++ [dot]) <> Some (VOk r).
+Proof. exact empty_signature_rejected. Qed.
+Print Assumptions C09_empty_signature_never_accepted.
+
+(* adding keys never turns an accepted token into a rejected one *)
+Theorem C09_acceptance_monotone_in_keyset :
+  forall sig_valid json_parse keys extra1 extra2 o tok r,
+    verify sig_valid json_parse keys o tok = Some (VOk r) ->
+    verify sig_valid json_parse (extra1 ++ keys ++ extra2) o tok = Some (VOk r).
+Proof. exact verify_monotone. Qed.
+Print Assumptions C09_acceptance_monotone_in_keyset.
+
+(* the error class of the keyset loop: a validation ("interesting") error iff
+   no enabled key accepts and some enabled key fails only at validation *)
+Theorem C09_interesting_error_rule :
+  forall sig_valid json_parse keys v tok,
+    verify_loop sig_valid json_parse keys v tok false = VOther <->
+    (forall k r, In k keys -> kenabled k = true -> verify_key sig_valid json_parse k v tok <> VOk r)
+    /\ (exists k, In k keys /\ kenabled k = true /\ verify_key sig_valid json_parse k v tok = VOther).
+Proof.
+  intros. rewrite verify_loop_other. split; intros [H1 H2]; split; auto.
+  destruct H2 as [H2|H2]; [discriminate | assumption].
+Qed.
+Print Assumptions C09_interesting_error_rule.
+
 (* ---- NewRawJWT, encoding and the round trip ---- *)
 
 (* every option of an accepted RawJWTOptions becomes exactly its claim, custom
